@@ -22,6 +22,7 @@ abbrev Hid := Nat
 inductive Op where
   | add | remove (h : Hid) | removeAll | log (m : Nat)
   | other      -- level()/enable()/disable()/configure(): take the core lock, may read the registry
+  | fork       -- os.fork(): the at-fork hooks of _locks_machinery run in the forking thread
   deriving DecidableEq, Repr
 
 inductive Lab where
@@ -32,6 +33,8 @@ inductive Lab where
   | rStopped (h : Hid) (b : Bool) | wStopped (h : Hid)
   | wBegin (h : Hid) | wEnd (h : Hid) | sinkStop (h : Hid)
   | skip (h : Hid) | early | raise
+  | forkAcq (order : List Hid)   -- acquire_locks(): core lock taken, handler locks will follow in `order`
+  | forked                       -- os.fork() itself: the child is a copy of this state with this thread only
   deriving DecidableEq, Repr
 
 inductive Pc where
@@ -39,6 +42,9 @@ inductive Pc where
   -- add(): `with lock: id = count; count += 1` … `with lock: handlers = handlers.copy(); …; publish`
   | a0 | a1 | a2 (n : Nat) | a3 (n : Nat) | a4 (n : Nat) | a5 (n : Nat) | a6 (n : Nat)
   | a7 (n : Nat) (ids : List Hid) | a8 (n : Nat)
+  -- fork: k0 before the core lock; k1 holds core + `got`, acquiring `todo` in order; k2 fork point;
+  -- k3 after_in_parent: handler locks `got` being released, then the core lock
+  | k0 | k1 (todo got : List Hid) | k2 (got : List Hid) | k3 (got : List Hid)
   -- level()/enable()/disable(): o0 before the lock, o1 locked
   | o0 | o1
   -- remove(): r0 before the lock, r1 locked, rL loop head with the ids still to remove
@@ -91,6 +97,30 @@ def step (s : St) (t : Tid) (lab : Lab) : Option St :=
   | .idle, .start .removeAll => some (setPc s t (.r0 none))
   | .idle, .start (.log m) => some (setPc s t (.l0 m))
   | .idle, .start .other => some (setPc s t .o0)
+  | .idle, .start .fork => some (setPc s t .k0)
+  -- ---------------------------------------------------------------- fork (acquire_locks / release_locks)
+  | .k0, .forkAcq order =>
+      if s.coreLock = none then
+        (if order.Nodup ∧ order.all (fun h => decide (h ∈ s.pub)) = true ∧ s.pub.all (fun h => decide (h ∈ order)) = true then
+          some { setPc s t (.k1 order []) with coreLock := some t }
+        else none)
+      else none
+  | .k1 (h :: todo) got, .acqH k =>
+      if k = h then
+        (if (s.hs h).lock = none then
+          some { setPc s t (.k1 todo (h :: got)) with hs := upd s.hs h { s.hs h with lock := some t } }
+        else none)
+      else none
+  | .k1 [] got, .forked => some (setPc s t (.k2 got))
+  -- release_locks(): handler locks first (any order), the core lock last
+  | .k2 got, .relH k =>
+      if k ∈ got then some { setPc s t (.k3 (got.erase k)) with hs := upd s.hs k { s.hs k with lock := none } }
+      else none
+  | .k2 [], .relCore => some { setPc s t .idle with coreLock := none }
+  | .k3 got, .relH k =>
+      if k ∈ got then some { setPc s t (.k3 (got.erase k)) with hs := upd s.hs k { s.hs k with lock := none } }
+      else none
+  | .k3 [], .relCore => some { setPc s t .idle with coreLock := none }
   -- ---------------------------------------------------------------- level / enable / disable
   | .o0, .acqCore => if s.coreLock = none then some { setPc s t .o1 with coreLock := some t } else none
   | .o1, .rReg ids => if ids = s.reg then some (setPc s t .o1) else none
@@ -168,12 +198,13 @@ def run (s : St) : List (Tid × Lab) → St
 
 /-- a thread is *blocked* when it is waiting for a lock somebody holds -/
 def waitsCore : Pc → Bool
-  | .a0 | .a5 _ | .r0 _ | .o0 => true
+  | .a0 | .a5 _ | .r0 _ | .o0 | .k0 => true
   | _ => false
 
 def waitsH : Pc → Option Hid
   | .rP h _ => some h
   | .lL _ (h :: _) _ => some h
+  | .k1 (h :: _) _ => some h
   | _ => none
 
 end Conc
